@@ -3046,11 +3046,12 @@ class Client:
             if self._state in (_ConnectionState.MQTT_CS_DISCONNECTING, _ConnectionState.MQTT_CS_DISCONNECTED):
                 self._state = _ConnectionState.MQTT_CS_DISCONNECTED
                 rc = MQTTErrorCode.MQTT_ERR_SUCCESS
+            else:
+                # The socket is gone whatever the error was: never keep reporting
+                # a connection that no longer exists.
+                self._state = _ConnectionState.MQTT_CS_CONNECTION_LOST
 
             self._do_on_disconnect(packet_from_broker=False, v1_rc=rc)
-
-        if rc == MQTT_ERR_CONN_LOST:
-            self._state = _ConnectionState.MQTT_CS_CONNECTION_LOST
 
         return rc
 
